@@ -208,3 +208,7 @@ func init() {
 func init() {
 	claim("C15", "Q1", "Q2", "Q3", "Q4", "N5")
 }
+
+func init() {
+	claim("C14", "T1", "T2", "T3", "T5", "V4", "O1", "N7", "Q1", "Q2")
+}
